@@ -31,6 +31,8 @@ through the 'nothing left' edge of a test of the (resume_tokens, missing_keys) j
 four chk root-key sets of the new inventories are walked, interesting with its own uninteresting set.
 R6 RepositoryAcquisitionPolicy._add_fallback sets _require_stacking = True on every normal path after a successful
 add_fallback_repository(); the flag has readers (sprout / configure_branch / initialize_on_transport_ex).
+R7 (fourth round) no *Packer class of the pack modules reads the repository's _fallback_repositories: a repack keeps what the source
+   packs hold, whatever the fallback has.
 Does not decide: that _check_new_inventories / fileids_altered_by_revision_ids compute the right key sets.
 """
 
@@ -166,6 +168,22 @@ def run(ctx):
                 if q_ != "RepositoryAcquisitionPolicy._add_fallback" and any(isinstance(n, ast.Attribute) and n.attr == "_require_stacking" and isinstance(n.ctx, ast.Load) for n in ast.walk(f_)):
                     readers.append(f"{rel_}:{q_}")
     ctx.check("R6-fallback-makes-stacking-mandatory", CD, len(readers) >= 2, f"_require_stacking is read by {readers}")
+    # ---- R7: a repack is independent of the fallbacks -----------------------------------------------------------------------
+    # The parent inventories a stacked repository stores beyond its own revisions are there on purpose (they make it readable
+    # without its fallback); a packer that consults the fallback repositories can decide to drop them.
+    offenders = []
+    n_pk = 0
+    for rel_ in (GC, "breezy/bzr/pack_repo.py", "breezy/bzr/knitpack_repo.py"):
+        for cname, cls in repo.module(rel_).classes().items():
+            if not cname.endswith("Packer"):
+                continue
+            n_pk += 1
+            for n_ in ast.walk(cls):
+                if isinstance(n_, ast.Attribute) and n_.attr in ("_fallback_repositories", "fallback_repositories"):
+                    offenders.append(f"{rel_}:{cname} L{n_.lineno}")
+    ctx.require(n_pk >= 4, f"only {n_pk} packer classes found (hand-confirmed: 7)")
+    ctx.check("R7-repack-ignores-fallbacks", GC, not offenders, "no packer class looks at the repository's fallback repositories", construct="; ".join(offenders), message=f"a packer consults the fallback repositories ({'; '.join(offenders)}): what a repack keeps then depends on what the fallback happens to hold, and the parent inventories a stacked repository stores so that it can be read (and served over the smart server) without its fallback are dropped as 'second copies'")
+
 
 MUTANTS = [
     Mutant("fallback added without making stacking mandatory", "breezy/controldir.py", "            if self._require_stacking:\n                raise\n        else:\n            self._require_stacking = True\n", "            if self._require_stacking:\n                raise\n", expect="R6-fallback-makes-stacking-mandatory"),
